@@ -198,8 +198,10 @@ Read(e, s) ==          \* the reader takes everything that is pending and releas
     /\ got' = Set2(got, e, s, got[e][s] \o [i \in 1..Len(pend[e][s]) |-> pend[e][s][i][1]])
     /\ pend' = Set2(pend, e, s, <<>>)
     /\ inuse' = inuse - ShmCount(pend[e][s])
+    /\ fbk' = IF \E i \in 1..Len(pend[e][s]) : ~pend[e][s][i][2]
+                THEN Set2(fbk, e, s, TRUE) ELSE fbk      \* receiving fallback data makes this end use the socket too
     /\ lastErr' = "ok"
-    /\ UNCHANGED <<sst, wpc, nmsg, okmsg, fbk, queue, sock, flag, gen, eos, exh, nexh>>
+    /\ UNCHANGED <<sst, wpc, nmsg, okmsg, queue, sock, flag, gen, eos, exh, nexh>>
     /\ KfStep
 ReadEnd(e, s) ==       \* nothing pending and the stream is not open: end of stream (half-closed) or closed error
     /\ sst[e][s] \in {"half", "closed"} /\ pend[e][s] = <<>>
